@@ -306,12 +306,12 @@ func TestC01Unrepresentable(t *testing.T) {
 		switch kind {
 		case "v1-id>255":
 			f.V2, f.Incompat, f.Compat = false, 0, 0
-			f.ID = rapid.OneOf(rapid.SampledFrom([]uint32{256, 257, 511, 512, 65535, 65536, 1 << 24, 1<<32 - 1}), rapid.Uint32Range(256, 1<<32-1)).Draw(t, "bigid")
+			f.ID = rapid.OneOf(rapid.SampledFrom([]uint32{256, 257, 511, 512, 65535, 65536, 1 << 24, 1<<32 - 1}), rapid.Uint32Range(256, 1<<32-1), gen.UnrepresentableV1ID()).Draw(t, "bigid")
 		case "v2-id>=2^24":
 			if !f.V2 {
 				f.V2 = true
 			}
-			f.ID = rapid.OneOf(rapid.SampledFrom([]uint32{1 << 24, 1<<24 + 1, 1<<24 + 255, 1 << 25, 1<<32 - 1, 1 << 31}), rapid.Uint32Range(1<<24, 1<<32-1)).Draw(t, "bigid")
+			f.ID = rapid.OneOf(rapid.SampledFrom([]uint32{1 << 24, 1<<24 + 1, 1<<24 + 255, 1 << 25, 1<<32 - 1, 1 << 31}), rapid.Uint32Range(1<<24, 1<<32-1), gen.UnrepresentableV2ID()).Draw(t, "bigid")
 		case "payload>255":
 			n := rapid.OneOf(rapid.SampledFrom([]int{256, 257, 300, 511, 512, 513, 600, 1000, 70000}), rapid.IntRange(256, 2000)).Draw(t, "biglen")
 			f.Payload = make([]byte, n)
